@@ -106,11 +106,13 @@ CLAIMED.update({
     "C16": app("Admission (price = governance price, gas x price >= minimum fee), exact native cost, gas used <= limit and total balances fall by "
                "exactly gas used x price for contract transactions, fee sum grows by gas used x price only on success, proposer credited exactly "
                "the fee sum at EndBlock and nobody else's balance changes except matured refunds; across governance price changes.", "DESIGN.md 6/C16"),
-    "C17": ("exploration", "differential run against the reference EVM on a plain state DB seeded from the native ledger, judged by TLC (RigoProps C17) on recorded traces",
+    "C17": ("model_checking", "TLA+ spec EvmBridge.tla model-checked (sync-in/tag/revert/write-back protocol) + validation of the recorded wrapper operation stream (EvmOp hooks) + differential run against the reference EVM, all judged by TLC on recorded traces",
             "For every admissible contract transaction, deployment, and transfer to an address with code, the same go-ethereum interpreter is run on a "
             "deep copy of the EVM state in which every native account's balance and nonce is set from the native ledger, with block context and "
             "message built independently; success/failure, gas used, return/revert data, logs, all balances and nonces, and code/storage digests of "
-            "all contracts must agree; failed transactions must have no effect.",
+            "all contracts must agree; failed transactions must have no effect. EvmBridge.tla models the wrapper's sync-in / snapshot-tag / revert / "
+            "write-back protocol; TLC proves NoStaleRead and WriteBackExact for all interleavings (small scope) and refutes two wrong tagging rules; "
+            "the operation stream recorded by the EvmOp hooks from every real contract transaction is checked against the same protocol.",
             "the go-ethereum interpreter is trusted; assembled program templates (no compiler in the sandbox) + random parameters", "DESIGN.md 6/C17"),
     "C19": app("Every query (account, delegatee, reward, gov_params, total power) at any height 1..latest, asked between blocks, mid-block and after "
                "restarts, must equal the consensus view recorded at the end of that block; beyond-latest heights must fail; raw answers for a past "
